@@ -198,9 +198,43 @@ def native_replay(ctx, o):
     """Bounded native stand-in / replay for the voxel geometry obligations: polygons (triangles, rectangles, isosceles trapezoids and other
     equal-diagonal quadrilaterals, random convex and star-shaped polygons), every starting vertex and both orientations, compared with an
     independent shoelace / Bourke evaluation in Python."""
+    from replaylib.native import run_native
+    if 'AxisymmetricVoxel' in o.name and 'emissivity_from_function' in o.name:
+        # Monte-Carlo average over the cross-section: no sample may fall outside the polygon (indicator of the complement averages to
+        # exactly 0), a constant is reproduced exactly, the mean of f = r approaches the centroid radius; every starting vertex / orientation
+        code = """
+import math, numpy as np
+from matplotlib.path import Path
+from cherab.tools.inversions.voxels import AxisymmetricVoxel
+polys = [[(2, 0), (2, 4), (3, 3), (3, 1)], [(1, 0), (4, 0), (3, 1), (2, 1)], [(1, 1), (1, 2), (3, 2), (3, 1)], [(1, 0), (2, 0), (1.5, 1)],
+         [(2, 0), (3, 0.5), (3.5, 1.5), (2.2, 2.5), (1.5, 1.2)]]
+def shoelace(p):
+    a = cx = 0.0
+    for i in range(len(p)):
+        x0, y0 = p[i]; x1, y1 = p[(i + 1) % len(p)]; w = x0 * y1 - x1 * y0; a += w; cx += (x0 + x1) * w
+    return 0.5 * a, cx / (3 * a)
+bad = []; cases = 0
+for p in polys:
+    a0, cx0 = shoelace(p); path = Path(np.array(p))
+    spread = max(x for x, _ in p) - min(x for x, _ in p)
+    for rev in (False, True):
+        q = list(reversed(p)) if rev else list(p)
+        for s in range(len(q)):
+            r = q[s:] + q[:s]; v = AxisymmetricVoxel(r); cases += 1
+            outside = v.emissivity_from_function(lambda x, y, z: 0.0 if path.contains_point((math.hypot(x, y), z), radius=1e-9) or path.contains_point((math.hypot(x, y), z), radius=-1e-9) else 1.0, 4000)
+            const = v.emissivity_from_function(lambda x, y, z: 2.5, 200)
+            meanr = v.emissivity_from_function(lambda x, y, z: math.hypot(x, y), 20000)
+            if outside > 0 or const != 2.5 or abs(meanr - cx0) > 6 * spread / math.sqrt(12 * 20000):
+                bad.append({"vertices": [list(x) for x in r], "fraction_of_samples_outside_polygon": outside, "constant": const, "mean_r": meanr, "centroid_r": cx0})
+print(json.dumps({"cases": cases, "bad": bad[:3], "nbad": len(bad)}))
+"""
+        out = run_native(ctx, code, timeout=900)
+        exp = 'samples inside the polygon only, constants exact, mean of r = centroid radius, for every vertex order'
+        if out and out.get('nbad'):
+            return {'confirmed': True, 'input': out['bad'][0], 'observed': out, 'expected': exp}
+        return {'confirmed': False, 'input': None, 'observed': out, 'expected': exp}
     if 'AxisymmetricVoxel' not in o.name or not any(k in o.name for k in ('cross_sectional_area', 'cross_section_centroid', 'volume')):
         return None
-    from replaylib.native import run_native
     code = """
 import math, random
 from cherab.tools.inversions.voxels import AxisymmetricVoxel
